@@ -62,7 +62,8 @@ func restart(old *sim.Hub) (*sim.Hub, error) {
 	for i, v := range old.Staking.Vals {
 		*nh.Staking.Vals[i] = *v
 	}
-	gctx := nh.InitBase()
+	// InitChain runs the genesis at block height 0 (a chain restarted from a zero-height export)
+	gctx := nh.InitBase().WithBlockHeight(0)
 	nh.CopyStoreFrom(old, authtypes.StoreKey)
 	nh.CopyStoreFrom(old, banktypes.StoreKey)
 	var err error
@@ -190,7 +191,15 @@ func TestC15(t *testing.T) {
 							break
 						}
 						if w != v {
-							diffs = append(diffs, pbt.Failf("state-not-preserved:"+names[p], "%s: key %x has value %x before export and %x after import", names[p], k, v, w))
+							key := "state-not-preserved:" + names[p]
+							if p == mtypes.LastExternalBlockHeightKey {
+								// {external height, hub height at which it was observed}: which half is lost?
+								var a, b mtypes.LatestBlockHeight
+								if old.Cdc.Unmarshal([]byte(v), &a) == nil && old.Cdc.Unmarshal([]byte(w), &b) == nil && a.ExternalHeight == b.ExternalHeight {
+									key += ".cosmos-height"
+								}
+							}
+							diffs = append(diffs, pbt.Failf(key, "%s: key %x has value %x before export and %x after import", names[p], k, v, w))
 							break
 						}
 					}
@@ -204,6 +213,18 @@ func TestC15(t *testing.T) {
 			}
 			cmp(mhub2Prefixes, a, b)
 			cmp(oraclePrefixes, oa, ob)
+			// a second restart straight from the restarted chain: what the first import wrote must export again
+			if nh2, err2 := restart(nh); err2 != nil {
+				return pbt.Failf("import-fails", "second restart: %v", err2)
+			} else {
+				first := len(diffs)
+				cmp(mhub2Prefixes, b, byPrefix(nh2.Dump(mtypes.StoreKey)))
+				cmp(oraclePrefixes, ob, byPrefix(nh2.Dump(otypes.StoreKey)))
+				for _, f := range diffs[first:] {
+					f.Key += "(second-restart)"
+					f.Msg = "second restart: " + f.Msg
+				}
+			}
 			for p := range a {
 				if _, known := mhub2Prefixes[p]; !known {
 					return pbt.Failf("harness", "unknown mhub2 store prefix %d", p)
